@@ -414,8 +414,17 @@ def main(argv):
         rc, out = sh([hexe, 'run', hname, '-in', cases, '-out', goout, '-modelin', modelin, '-stats', statsf],
                      env=runenv, timeout=cfg.get('run_timeout', 3000))
         if rc != 0:
-            # the harness itself crashed: an uncaught failure of the implementation under test
-            problems.append({'what': 'harness run failed (exit %d)' % rc, 'log': out[-3000:]})
+            # the harness itself crashed: an uncaught failure of the implementation under test (a fatal runtime error
+            # cannot be recovered).  The harness keeps the number of the case it is exercising in a small file: that case
+            # is the failing input
+            try:
+                idx = int(open(goout + '.progress').read().split()[0])
+                cl0 = [l for l in open(cases).read().split('\n') if l != '']
+                tail = [l for l in out.strip().split('\n') if l.strip()]
+                why = next((l for l in tail if l.startswith('fatal error') or l.startswith('panic:')), tail[-1] if tail else '')
+                violations.append({'index': idx, 'case': cl0[idx], 'go': '!PROCESS-ABORTED (exit %d): %s' % (rc, why[:300]), 'model': '(not reached)'})
+            except Exception:
+                problems.append({'what': 'harness run failed (exit %d)' % rc, 'log': out[-3000:]})
             return
         st = json.load(open(statsf))
         for k, v in st.get('counters', {}).items():
